@@ -23,6 +23,7 @@ import (
 	"go/token"
 	"go/types"
 	"math/rand"
+	"os"
 	"strings"
 	"time"
 
@@ -43,6 +44,9 @@ var historyGroups = []string{
 	"func hswitch(m dsl.Matcher) {\n\tm.Match(`switch { $*_ }`).Where(m.Deadcode()).Report(`dead switch`)\n}\n",
 	"func hpkg(m dsl.Matcher) {\n\tm.Match(`fmt.Println($*_)`, `strings.ToUpper($_)`).Report(`package symbol $$`)\n}\n",
 	"func hpkgsub(m dsl.Matcher) {\n\tm.Match(`go func() { $*_ }()`).Where(m[\"$$\"].Contains(`fmt.Println($*_)`)).Report(`goroutine prints`)\n}\n",
+	"func hptr(m dsl.Matcher) {\n\tm.Match(`sinkp($x)`).Where(m[\"x\"].Type.HasPointers()).Report(`has pointers: $x`)\n}\n",
+	"func hsize(m dsl.Matcher) {\n\tm.Match(`sinkq($x)`).Where(!m[\"x\"].Type.HasPointers() && m[\"x\"].Type.Size >= 16).Report(`wide and pointer-free: $x`)\n}\n",
+	"func hcmp(m dsl.Matcher) {\n\tm.Match(`sinkr($x)`).Where(m[\"x\"].Comparable && m[\"x\"].Type.Underlying().Is(`struct{$*_}`)).Report(`comparable struct: $x`)\n}\n",
 	"func himports(m dsl.Matcher) {\n\tm.Match(`_ = $x`).Where(m.File().Imports(`unsafe`) && !m.File().Imports(`sync`)).Report(`blank in a file that imports unsafe`)\n}\n",
 }
 
@@ -465,6 +469,7 @@ func loadRules(src string) (e *ruleguard.Engine, err error) {
 }
 
 type hVariant struct {
+	groups []string // the groups of the file, in file order
 	rules string
 	fmt   bool // has custom filters that import fmt: engines are expensive and re-used
 	kind  map[string]string // group name -> kind
@@ -531,6 +536,7 @@ func genVariant(rng *rand.Rand, vi int, fixed []string) (v hVariant, dropped []s
 		}
 	}
 	rng.Shuffle(len(groups), func(i, j int) { groups[i], groups[j] = groups[j], groups[i] })
+	v.groups = groups
 	v.rules = historyHeader(strings.Join(groups, "\n"))
 	return v, dropped
 }
@@ -657,9 +663,26 @@ func runHistory(enc *json.Encoder, rng *rand.Rand, nhist, size int, tmp string) 
 	for i := 0; i < 4; i++ {
 		add(fmt.Sprintf("h%d/target.go", i), genFile(rng, i, size))
 	}
+	// two packages with the same path whose equal-named types disagree (pointers, size, comparability), each with
+	// functions that declare a local type T of their own
+	add("hta/target.go", sameNameTarget(0))
+	add("htb/target.go", sameNameTarget(1))
+	// files that exist only in memory (parsed from a buffer; nothing to read at the file name of their positions),
+	// shorter than the files on disk
+	onDisk := len(pool)
+	add("hm0/target.go", genFile(rng, 8, size/3+2))
+	add("hm1/target.go", memSink)
+	for _, t := range pool[onDisk:] {
+		os.Remove(t.Path)
+	}
 	if len(pool) < 3 {
 		return
 	}
+	if historyColdChild {
+		runColdChild(enc, variants, engineFor, pool)
+		return
+	}
+	cold := startColdChild(nhist, size, tmp)
 	// reference: the same call on a fresh engine and a fresh (nil) state, computed once per (variant, file, TruncateLen)
 	type refKey struct{ variant, file, trunc int }
 	ref := map[refKey][]hReport{}
@@ -765,6 +788,16 @@ func runHistory(enc *json.Encoder, rng *rand.Rand, nhist, size int, tmp string) 
 			}
 			if len(want) > 0 && rng.Intn(3) == 0 {
 				call.PanicAt = rng.Intn(len(want))
+				// more often than not the callback panics while the walk is inside a dead branch / inside a function
+				var inDead []int
+				for ri, r := range want {
+					if strings.Contains(r.Group, "dead") && r.Func != "" {
+						inDead = append(inDead, ri)
+					}
+				}
+				if len(inDead) > 0 && rng.Intn(2) == 0 {
+					call.PanicAt = inDead[rng.Intn(len(inDead))]
+				}
 			}
 			st := states[call.State]
 			if st != nil && rng.Intn(4) == 0 {
@@ -810,4 +843,10 @@ func runHistory(enc *json.Encoder, rng *rand.Rand, nhist, size int, tmp string) 
 		}
 		enc.Encode(obs)
 	}
+	runGrowHistories(enc, rng, variants, pool, srcs, 4+nhist/8)
+	// the same (rule set, file) in a process that did everything in the opposite order
+	finishColdChild(enc, cold, variants, srcs, func(vi, fi int) ([]hReport, bool) {
+		r, ok := ref[refKey{vi, fi, 0}]
+		return r, ok
+	})
 }
